@@ -288,6 +288,19 @@ impl NumberExpression {
         }
     }
 
+    /// Returns true when the generators write this number with a leading `-` (a finite
+    /// negative decimal, `-0` included): the text then reads as a unary minus applied to a
+    /// number. NaN and infinite values are written between their own parentheses.
+    pub(crate) fn is_written_with_minus_sign(&self) -> bool {
+        match self {
+            Self::Decimal(number) => {
+                let float = number.get_raw_float();
+                float.is_finite() && float.is_sign_negative()
+            }
+            Self::Hex(_) | Self::Binary(_) => false,
+        }
+    }
+
     /// Computes the actual numerical value represented by this number expression.
     pub fn compute_value(&self) -> f64 {
         match self {
